@@ -36,3 +36,151 @@ Example C06_ex_reject :
                     pm_insts := [ {| pi_name := "i"; pi_ref := PLocal "A"; pi_params := [];
                                      pi_conns := [("p", PSlice "s" 4 4)] |} ]; pm_literals := [] |} ] |} = Error EOutOfBounds.
 Proof. reflexivity. Qed.
+
+(* =================================================================================================================
+   Strengthening round (C06x).
+   (a) instance parameters are part of the executable statement (wf_pkg_full = wf_pkg + wf_pkg_params);
+   (b) a model of the exporter's walk (Model/C06Export.v: by-id / by-name maps, depth-first definition-before-use,
+       the table of declared ExternalModules as repaired by fixes/C06-1, the parameter loop of export_instance) with,
+       for ALL object graphs: unique module names, definition before use, unique external declarations, every
+       external reference declared; fuel never exhausted on ordered designs;
+   (c) what stays outside the package: the flat name spaces of the netlisters (recorded findings). *)
+Require Import Hdl21.Spec.WfDesign Hdl21.Spec.C06Accept Hdl21.Model.C06Export Hdl21.Proofs.C06ExportProofs.
+From Coq Require String.
+
+Lemma c06_nodup_names_NoDup (l : list name) : nodup_names l = true -> NoDup l.
+Proof.
+  induction l as [|a l IH]; intros H1; [constructor|]. cbn [nodup_names] in H1.
+  apply andb_prop in H1. destruct H1 as [Ha Hl]. constructor; [|exact (IH Hl)].
+  intros Hin. apply negb_true_iff in Ha. assert (X : existsb (String.eqb a) l = true).
+  { apply existsb_exists. exists a. split; [exact Hin|apply String.eqb_refl]. } congruence.
+Qed.
+
+(* (a) acceptance by wf_pkg_params: every instance parameter has a name, a value that is set, and names do not repeat *)
+Theorem C06_params_closed p : wf_pkg_params p = true ->
+  forall m i, In m (pk_mods p) -> In i (pm_insts m) ->
+    NoDup (map fst (pi_params i)) /\
+    forall k v, In (k, v) (pi_params i) -> k <> String.EmptyString /\ pvalue_set v = true.
+Proof.
+  unfold wf_pkg_params. intros H m i Hm Hi. rewrite forallb_forall in H. specialize (H m Hm).
+  rewrite forallb_forall in H. specialize (H i Hi). unfold wf_params in H. apply andb_prop in H. destruct H as [H1 H2].
+  split.
+  - apply c06_nodup_names_NoDup. exact H1.
+  - intros k v Hkv. rewrite forallb_forall in H2. specialize (H2 _ Hkv). cbn [fst snd] in H2.
+    apply andb_prop in H2. destruct H2 as [Hk Hv]. split; [|exact Hv].
+    intros ->. cbn in Hk. discriminate.
+Qed.
+Print Assumptions C06_params_closed.
+
+(* (b1) THE WALK. Whatever the object graph (sharing, any depth, any order of tops, arrays, external objects with equal
+   or clashing declarations): if the exporter model returns a package then
+     - module names are unique,
+     - every local reference of a module names a module that stands EARLIER in the package,
+     - no (domain, name) is declared twice among the external modules,
+     - every reference to an ExternalModule object is declared in the package. *)
+Theorem C06_export_closed hp xh tops st : export hp xh tops = Ok st ->
+  NoDup (map fst (xs_out st)) /\
+  (forall pre m post, xs_out st = pre ++ m :: post ->
+     forall nm, In (OLocal nm) (snd m) -> In nm (map fst pre)) /\
+  nodup_exts (xs_exts st) = true /\
+  (forall m d n, In m (xs_out st) -> In (OExt d n) (snd m) -> exists x, find_ext (xs_exts st) d n = Some x).
+Proof.
+  unfold export. intros H. pose proof (export_tops_inv xh hp _ _ _ _ (inv_init xh) H) as I.
+  destruct I as [I1 I2 I3 I4 I5 I6 I7]. auto.
+Qed.
+Print Assumptions C06_export_closed.
+
+(* ... in the terms of the checks wf_pmodule makes: the name of a module does not occur before it *)
+Theorem C06_export_names_checked hp xh tops st : export hp xh tops = Ok st ->
+  forall pre m post, xs_out st = pre ++ m :: post ->
+    existsb (fun m' => String.eqb (fst m') (fst m)) pre = false.
+Proof.
+  intros H pre m post E. destruct (C06_export_closed _ _ _ _ H) as [Hn _]. rewrite E, map_app in Hn. cbn [map] in Hn.
+  apply NoDup_remove_2 in Hn. destruct (existsb (fun m' : name * list oref => String.eqb (fst m') (fst m)) pre) eqn:X; [|exact X]. exfalso.
+  apply existsb_exists in X. destruct X as [m' [Hin Heq]]. apply String.eqb_eq in Heq. apply Hn.
+  apply in_or_app. left. rewrite <- Heq. apply in_map. exact Hin.
+Qed.
+Print Assumptions C06_export_names_checked.
+
+(* (b2) the external-module table: after export_external_module of object j, the (domain, name) of j's own declaration
+   is declared in the package by a declaration EQUAL to j's - whether j was seen before, is the first of its name, or
+   shares its name with an earlier object of identical interface; a differing interface is refused (EName) *)
+Theorem C06_ext_declared xh st j st' : inv xh st -> export_ext xh st j = Ok st' ->
+  exists d x, nth_error xh j = Some d /\ find_ext (xs_exts st') (px_domain d) (px_name d) = Some x /\ pext_eqb x d = true.
+Proof. intros I H. destruct (export_ext_inv xh st j st' I H) as [_ [_ [_ X]]]. exact X. Qed.
+Print Assumptions C06_ext_declared.
+
+(* the table as it was before fixes/C06-1 (keyed by id() only): two ExternalModule objects of one (domain, name)
+   are both declared - the package is then rejected by from_proto and by the netlisters *)
+Definition res2 : pext := {| px_domain := "lib"; px_name := "res"; px_ports := [("p", 1, 3); ("n", 1, 3)]; px_spicetype := "SUBCKT" |}.
+Theorem C06_ext_table_by_id_refuted : exists xh j1 j2 st1 st2,
+  export_ext_by_id_only xh xs_init j1 = Ok st1 /\ export_ext_by_id_only xh st1 j2 = Ok st2 /\ nodup_exts (xs_exts st2) = false.
+Proof. exists [res2; res2], 0%nat, 1%nat. eexists. eexists. split; [reflexivity|]. split; [reflexivity|]. reflexivity. Qed.
+Print Assumptions C06_ext_table_by_id_refuted.
+(* ... the repaired table declares it once *)
+Example C06_ex_ext_table_repaired : exists st1 st2,
+  export_ext [res2; res2] xs_init 0 = Ok st1 /\ export_ext [res2; res2] st1 1 = Ok st2 /\ xs_exts st2 = [res2].
+Proof. eexists. eexists. split; [reflexivity|]. split; reflexivity. Qed.
+
+(* (b3) fuel is never exhausted on a design whose modules instantiate only modules created before them *)
+Theorem C06_export_no_fuel hp xh tops : heap_ordered hp -> (forall k, In k tops -> (k < S (List.length hp))%nat) ->
+  export hp xh tops <> Error EFuel.
+Proof. intros Ho Ht. unfold export. apply export_tops_no_fuel; assumption. Qed.
+Print Assumptions C06_export_no_fuel.
+
+(* (b4) the parameter loop of export_instance: un-set (None) values are skipped, so every exported parameter carries a value
+   (given that every value the exporter can print is non-empty and does not read as un-set) and names stay unique *)
+Theorem C06_export_params_set ps :
+  nodup_names (map fst ps) = true ->
+  (forall k v, In (k, Some v) ps -> k <> String.EmptyString /\ pvalue_set v = true) ->
+  wf_params (export_params ps) = true.
+Proof.
+  intros Hn Hv. unfold wf_params. rewrite (nodup_names_export_params _ Hn). cbn [andb]. apply forallb_forall.
+  intros [k v] Hin. apply export_params_in in Hin. destruct (Hv _ _ Hin) as [Hk Hs]. cbn [fst snd]. rewrite Hs, andb_true_r.
+  apply negb_true_iff. apply String.eqb_neq. exact Hk.
+Qed.
+Print Assumptions C06_export_params_set.
+(* exporting the un-set values too (what moving the `is None` test out of the loop does for dict-typed parameters)
+   yields a parameter that wf_params rejects *)
+Example C06_ex_params_unset_rejected :
+  wf_params (export_params [("w", Some "pre:MICRO:i1"); ("l", None)]) = true /\
+  wf_params [("w", "pre:MICRO:i1"); ("l", "?None")] = false.
+Proof. split; reflexivity. Qed.
+
+(* (c) outside the package: the netlisters' flat name spaces. A package can be closed and self-consistent and still be
+   refused by the spice and spectre netlisters - to_proto returns it (model: the walk succeeds). Recorded findings. *)
+Definition pm_inv (nm : name) : pmodule :=
+  {| pm_name := nm; pm_sigs := [("a", 1)]; pm_ports := [("a", 3)]; pm_insts := []; pm_literals := [] |}.
+Definition pk_two_invs : package :=
+  {| pk_domain := ""; pk_exts := [];
+     pk_mods := [pm_inv "liba.Inv"; pm_inv "libb.Inv";
+                 {| pm_name := "top.T"; pm_sigs := [("x", 1)]; pm_ports := [];
+                    pm_insts := [ {| pi_name := "i1"; pi_ref := PLocal "liba.Inv"; pi_params := []; pi_conns := [("a", PSig "x")] |};
+                                  {| pi_name := "i2"; pi_ref := PLocal "libb.Inv"; pi_params := []; pi_conns := [("a", PSig "x")] |} ];
+                    pm_literals := [] |}] |}.
+Theorem C06_netlist_flat_names_refuted : exists p,
+  wf_pkg_full prims_ext p = Ok tt /\ netlist_flat_ok p = false /\
+  exists st, export [ {| hm_name := "liba.Inv"; hm_insts := [] |}; {| hm_name := "libb.Inv"; hm_insts := [] |};
+                      {| hm_name := "top.T"; hm_insts := [(HMod 0, 0); (HMod 1, 0)] |} ] [] [2%nat] = Ok st /\
+             map fst (xs_out st) = map pm_name (pk_mods p).
+Proof. exists pk_two_invs. split; [reflexivity|]. split; [reflexivity|]. eexists. split; reflexivity. Qed.
+Print Assumptions C06_netlist_flat_names_refuted.
+
+(* non-vacuity of the walk: a shared sub-module below two parents, an array declared before a single instance
+   (its elements are exported after it), two external objects of one interface and a same-named one in another domain *)
+Definition resA : pext := {| px_domain := "libA"; px_name := "res"; px_ports := [("p", 1, 3); ("n", 1, 3)]; px_spicetype := "RESISTOR" |}.
+Definition walk_view (r : result xstate) : option (list name * list pext * option (name * list oref)) :=
+  match r with Ok st => Some (map fst (xs_out st), xs_exts st, nth_error (xs_out st) 3) | Error _ => None end.
+Example C06_ex_walk :
+  walk_view (export [ {| hm_name := "d.Leaf"; hm_insts := [(HExt 0, 0); (HExt 1, 0); (HExt 2, 0)] |};
+                      {| hm_name := "d.Mid"; hm_insts := [(HMod 0, 2); (HPrim "vlsir.primitives" "resistor", 0)] |};
+                      {| hm_name := "d.Other"; hm_insts := [(HMod 0, 0)] |};
+                      {| hm_name := "d.Top"; hm_insts := [(HMod 2, 2); (HMod 1, 0); (HMod 0, 0)] |} ]
+                    [res2; res2; resA] [3%nat])
+  = Some (["d.Leaf"; "d.Mid"; "d.Other"; "d.Top"], [res2; resA],
+          Some ("d.Top", [OLocal "d.Mid"; OLocal "d.Leaf"; OLocal "d.Other"; OLocal "d.Other"])).
+Proof. vm_compute. reflexivity. Qed.
+(* ... a clash of qualified names below the top is refused, also when the child takes the parent's name *)
+Example C06_ex_walk_clash :
+  export [ {| hm_name := "d.A"; hm_insts := [] |}; {| hm_name := "d.A"; hm_insts := [(HMod 0, 0)] |} ] [] [1%nat] = Error EName.
+Proof. reflexivity. Qed.
